@@ -88,6 +88,11 @@ class ProfileGenericBufferParser:
 
                         else:
                             parsed_column.append(None)
+                    else:
+                        # a null value is still a value of its column.
+                        parsed_column.append(
+                            ColumnValue(attribute=cosem_attribute, value=None)
+                        )
 
             parsed_entries.append(parsed_column)
 
